@@ -157,13 +157,118 @@ impl<'a> Datagram<'a> {
 
 // ---- driver: wtransport/src/datagram.rs header_size, wtransport/src/connection.rs max_datagram_size
 // (`H3Datagram` is the driver's alias of the proto `Datagram`)
-struct DriverDatagram;
+// bytes::Bytes: assumed external type with a byte-sequence view
+#[verifier::external_body]
+struct Bytes {
+    b: Vec<u8>,
+}
+
+impl Bytes {
+    uninterp spec fn view(&self) -> Seq<u8>;
+
+    #[verifier::external_body]
+    fn len(&self) -> (r: usize)
+        ensures r == self@.len(),
+    {
+        unimplemented!()
+    }
+}
+
+// `&quic_dgram` (Deref<Target = [u8]>) and `Bytes::slice(offset..)`: assumed contracts of the crate
+#[verifier::external_body]
+fn bytes_as_slice(b: &Bytes) -> (r: &[u8])
+    ensures r@ == b@,
+{
+    unimplemented!()
+}
+
+#[verifier::external_body]
+fn bytes_slice_from(b: &Bytes, offset: usize) -> (r: Bytes)
+    requires offset <= b@.len(),
+    ensures r@ == b@.skip(offset as int),
+{
+    unimplemented!()
+}
+
+impl<'a> Datagram<'a> {
+//@ extract wtransport-proto/src/datagram.rs >> impl<'a> Datagram<'a> >> fn qstream_id
+//@ ensures r == self.qstream_id
+//@ end
+
+//@ extract wtransport-proto/src/datagram.rs >> impl<'a> Datagram<'a> >> fn payload
+//@ ensures r@ == self.payload@
+//@ end
+}
+
+impl StreamId {
+//@ extract wtransport-proto/src/ids.rs >> impl StreamId >> fn new
+//@ ensures r.0 == varint
+//@ end
+//@ extract wtransport-proto/src/ids.rs >> impl StreamId >> fn is_bidirectional
+//@ prologue proof { let x = self.0.0; assert((x & 0x2 == 0) == (x % 4 == 0 || x % 4 == 1)) by (bit_vector); }
+//@ ensures r == (self.0.0 % 4 == 0 || self.0.0 % 4 == 1)
+//@ end
+//@ extract wtransport-proto/src/ids.rs >> impl StreamId >> fn is_client_initiated
+//@ prologue proof { let x = self.0.0; assert((x & 0x1 == 0) == (x % 4 == 0 || x % 4 == 2)) by (bit_vector); }
+//@ ensures r == (self.0.0 % 4 == 0 || self.0.0 % 4 == 2)
+//@ end
+}
+
+impl SessionId {
+//@ extract wtransport-proto/src/ids.rs >> impl SessionId >> fn from_session_stream_unchecked
+//@ requires stream_id.0.wf(), stream_id.0.0 % 4 == 0
+//@ ensures r.0 == stream_id, r.wf()
+//@ end
+}
+
+impl QStreamId {
+//@ extract wtransport-proto/src/ids.rs >> impl QStreamId >> fn into_stream_id
+//@ rename `VarInt::MAX.into_inner()` => `4_611_686_018_427_387_903`
+//@ prologue proof { let x = self.val(); assert(x <= 0x0fff_ffff_ffff_ffff ==> (x << 2) <= 0x3fff_ffff_ffff_ffff && (x << 2) == x * 4) by (bit_vector); }
+//@ requires self.wf()
+//@ ensures r.0.0 == 4 * self.val(), r.0.wf()
+//@ end
+
+//@ extract wtransport-proto/src/ids.rs >> impl QStreamId >> fn into_session_id
+//@ requires self.wf()
+//@ ensures r.val() == 4 * self.val(), r.wf()
+//@ end
+}
+
+// the application-facing datagram of the driver crate (`H3Datagram` is its alias of the proto type)
+//@ extract wtransport/src/datagram.rs >> struct Datagram
+//@ subst `struct Datagram` => `struct DriverDatagram`
+//@ end
 
 impl DriverDatagram {
 //@ extract wtransport/src/datagram.rs >> impl Datagram >> fn header_size
 //@ subst `H3Datagram::header_size` => `Datagram::header_size`
 //@ requires session_id.wf()
 //@ ensures r as int == varint_len(session_id.val() / 4), 1 <= r <= 8
+//@ end
+
+// C03: what the receiving application gets is exactly the bytes after the quarter-stream-id varint
+// of the QUIC datagram (never altered, merged or truncated), attributed to session 4 * qid
+//@ extract wtransport/src/datagram.rs >> impl Datagram >> fn read
+//@ subst `H3Datagram::read(&quic_dgram)?` => `Datagram::read(bytes_as_slice(&quic_dgram))?`
+//@ ensures
+//@ | match r {
+//@ |     Ok(d) => varint_complete(quic_dgram@) && varint_val(quic_dgram@) <= QSTREAM_MAX
+//@ |         && d.quic_dgram@ == quic_dgram@
+//@ |         && d.payload_offset == varint_len_from_first(quic_dgram@[0])
+//@ |         && d.session_id.val() == 4 * varint_val(quic_dgram@) && d.session_id.wf(),
+//@ |     Err(e) => e == ErrorCode::Datagram && (!varint_complete(quic_dgram@) || varint_val(quic_dgram@) > QSTREAM_MAX),
+//@ | }
+//@ end
+
+//@ extract wtransport/src/datagram.rs >> impl Datagram >> fn payload
+//@ subst `self.quic_dgram.slice(self.payload_offset..)` => `bytes_slice_from(&self.quic_dgram, self.payload_offset)`
+//@ requires self.payload_offset <= self.quic_dgram@.len()
+//@ ensures r@ == self.quic_dgram@.skip(self.payload_offset as int)
+//@ end
+
+//@ extract wtransport/src/datagram.rs >> impl Datagram >> fn session_id
+//@ ensures r == self.session_id
 //@ end
 }
 
